@@ -6,9 +6,11 @@ VERIF = os.path.dirname(os.path.dirname(os.path.dirname(os.path.abspath(__file__
 REPO = os.environ.get("VERIF_REPO", "/repo")
 COQ_DIR = os.path.join(VERIF, "coq")
 THEORIES = os.path.join(COQ_DIR, "theories")
-BUILD = os.path.join(VERIF, "build")
-REPLAYS = os.path.join(VERIF, "replays")
-EVIDENCE = os.path.join(VERIF, "evidence")
+# the three overrides below exist for the seeded-change self-test only (tools/run_seeded.py), so that a run
+# against a scratch worktree neither clobbers nor is mistaken for the evidence of /repo itself
+BUILD = os.environ.get("VERIF_BUILD", os.path.join(VERIF, "build"))
+REPLAYS = os.environ.get("VERIF_REPLAYS", os.path.join(VERIF, "replays"))
+EVIDENCE = os.environ.get("VERIF_EVIDENCE", os.path.join(VERIF, "evidence"))
 KNOWN_FINDINGS = os.path.join(VERIF, "known_findings.json")
 NPROC = int(os.environ.get("VERIF_JOBS", "16"))
 
